@@ -460,10 +460,16 @@ class C16(Prop):
               "within the dimensions. Proof: C04's fused form of <psi|psi> at the root, wire-by-wire renaming of sums (C16_sum_rename), "
               "delta / zero-padding elimination of the three root wires. Executable forms proved sound: C16_trace_value_checked, "
               "C16_ttndo_ofb_sound, C16_build_contractsb_sound (contracts over Z on every in-range index)"),
-        ("F", "single-site operator, partial (TTNDO/ValueTP.v): absorb_into_open_legs at the ket image of any node keeps the network a well-formed "
-              "density-operator network, so trace_ttndo closes the absorbed network for every tree and k (C16_tp1_absorbed_closed_partial); the "
-              "pure-state diagram <psi|O_c|psi> of C04 as a flat sum of node tensors, conjugate copies and the operator entry "
-              "(C16_tp1_state_value_partial). The equality of the two VALUES (renaming step with the operator atom) is not proved"),
+        ("O", "single-site tensor product = <psi|O_c|psi> as ONE statement (C16_tp1_value, TTNDO/ValueTP1.v; executable-hypothesis form "
+              "C16_tp1_value_checked): for every well-formed state store with one open leg per node, every tree, every k >= 1, every node c and "
+              "every operator atom of shape (dd, dd), dd the physical dimension of c: the code path of TTNDO.tensor_product_expectation_value with "
+              "one factor (ttndo_tp_expectation: absorb_into_open_legs at the ket image of c, then trace_ttndo) and C04's pure-state path "
+              "tp_expectation s [(c, [dd; dd])] both succeed with closed diagrams of EQUAL VALUE over any commutative semiring -- under ttndo_of, "
+              "the build contracts of C16_trace_value and the premise that the operator atom (next_atom of the network / of the state) holds the "
+              "same matrix in both atom tables. The two halves stay as theorems: the absorbed network is still a well-formed density-operator "
+              "network (C16_tp1_absorbed_closed_partial, F) and C04's fused flat form of <psi|O_c|psi> (C16_tp1_state_value_partial, F). "
+              "Non-vacuity: C16_example_tp1_numbers (non-symmetric integer operator on an inner node and on a leaf of the four-node tree, both "
+              "diagrams evaluated by vm_compute), C16_example_tp1_applies. NOT proved: products on two or more sites, the TTNO path"),
         ("I", "per explored build case (vm_compute): value_case = all structural hypotheses of C16_trace_value (value_hyp: wfsb of both stores, one open "
               "leg per node, ttndo_ofb) hold for the store program of from_ttns against the state built as a store program over the same tree and "
               "dimensions; the three build contracts are exactly what the build comparison checks on the arrays of the same case (root = eye(k), "
@@ -474,12 +480,16 @@ class C16(Prop):
               "= <psi|(x)O|psi> against an independent dense numpy oracle, also for states stored in float64 arrays / Fortran order, real / Fortran-ordered / strided "
               "factors, on a network nothing was asked of before, and along histories (several measurements on one network, operator objects reused, the source "
               "state advanced through the library API after the build, a second network from the same source; no model for these: oracle only); tensor-product "
-              "calls leave the receiver (trace still <psi|psi>) and the factor matrices unchanged. The value statement for trace() is the O clause above; for the TTNO and "
-              "tensor-product expectation values the corresponding value statements are not Coq theorems (diagram level + these ties only)"),
+              "calls leave the receiver (trace still <psi|psi>) and the factor matrices unchanged. The value statements for trace() and for a tensor product on ONE site are the O clauses above; for the TTNO "
+              "expectation value and for tensor products on two or more sites the corresponding value statements are not Coq theorems (diagram level + these ties only)"),
     ]
-    trusted_base = ["NumPy eye/pad/reshape/conj entry formulas = the premises build_contracts of C16_trace_value (validated exactly on every build case: "
+    trusted_base = ["NumPy eye/pad/reshape/conj entry formulas = the premises build_contracts of C16_trace_value / C16_tp1_value (validated exactly on every build case: "
                     "root = eye(k), padded slices zero, ket = state tensor, bra = conj(ket)); over an abstract semiring conjugation is not an operation: "
                     "'bra = conj(ket)' is the statement that the network's bra atom and the conjugate copy of C04 carry the same table",
+                    "C16_tp1_value: 'the operator atom holds the same matrix in both tables' is a premise (the caller hands the same ndarray to both code "
+                    "paths); absorb_into_open_legs is the Layer-W operation absorb_open (model tie of C04 / C08), the TTNDO tensor-product path is modelled as "
+                    "tp_apply at the ket identifiers followed by trace_ttndo (ValueTP1.ttndo_tp_expectation; control flow = C16_tp_expectation_fixed); the "
+                    "diagram of that path is not tied per instance to the library's number (the tensor-product value is compared with the dense oracle only)",
                     "gvalue (Contr/TensorProdBridge.v) as the denotation of a glued diagram: a definition, justified by C04_gvalue_g_tensordot and by the "
                     "einsum tie of the same diagrams against the library's numbers",
                     "dense references: util.dense_vec / dense_tp / dense_ham / dense_ttno (einsum, Kronecker products), tolerance 1e-9 relative to the operator scale",
